@@ -1,6 +1,6 @@
 use async_trait::async_trait;
 use chashmap_async::CHashMap;
-use easy_error::{Error, ResultExt};
+use easy_error::{err_msg, Error, ResultExt};
 use futures_util::TryFutureExt;
 use quinn::{congestion, Connection, Endpoint};
 use serde::{Deserialize, Serialize};
@@ -12,7 +12,7 @@ use tracing::{debug, info, warn};
 use crate::common::h11c::h11c_handshake;
 use crate::common::quic::{create_quic_frames, create_quic_server, quic_frames_thread, QuicStream};
 use crate::common::tls::TlsServerConfig;
-use crate::context::{make_buffered_stream, ContextRef};
+use crate::context::{make_buffered_stream, ContextRef, ContextRefOps};
 use crate::listeners::Listener;
 use crate::GlobalState;
 
@@ -113,9 +113,16 @@ impl QuicListener {
             let this = self.clone();
             let conn = conn.clone();
             let sessions = sessions.clone();
+            let ctx2 = ctx.clone();
             tokio::spawn(
                 h11c_handshake(ctx, queue.clone(), |_ch, id| async move {
                     Ok(create_quic_frames(conn, id, sessions).await)
+                })
+                .or_else(move |e| async move {
+                    // the context is already registered: record how it ended
+                    ctx2.on_error(err_msg(format!("handshake failed: {}", e)))
+                        .await;
+                    Err(e)
                 })
                 .unwrap_or_else(move |e| {
                     warn!("{}: h11c handshake error: {}: {:?}", this.name, e, e.cause)
